@@ -868,9 +868,47 @@ func normCond(c *Term, pol bool) (*Term, bool) {
 					c = &Term{Op: "bin", Name: "==", Args: []*Term{b, a}, Typ: c.Typ}
 				}
 			}
+			// emptiness of a string: len(s) == 0, len(s) < 1, !(0 < len(s)) are all s == ""
+			if s, p2, ok := stringEmptiness(c); ok {
+				c = &Term{Op: "bin", Name: "==", Args: []*Term{s, {Op: "const", Name: `""`, Typ: s.Typ}}, Typ: c.Typ}
+				if !p2 {
+					pol = !pol
+				}
+			}
 		}
 		return c, pol
 	}
+}
+
+// stringEmptiness: c is `len(s) == 0` / `len(s) < 1` (positive=true: s is empty) or
+// `0 < len(s)` (positive=false) for a string-typed s.
+func stringEmptiness(c *Term) (s *Term, positive, ok bool) {
+	if c.Op != "bin" || len(c.Args) != 2 {
+		return nil, false, false
+	}
+	lenOfString := func(t *Term) *Term {
+		if t.Op == "call" && t.Name == "builtin.len" && len(t.Args) == 1 && t.Args[0].Typ != nil {
+			if b, isB := t.Args[0].Typ.Underlying().(*types.Basic); isB && b.Info()&types.IsString != 0 {
+				return t.Args[0]
+			}
+		}
+		return nil
+	}
+	a, b := c.Args[0], c.Args[1]
+	switch c.Name {
+	case "==":
+		if x := lenOfString(a); x != nil && b.IsConst() && b.Name == "0" {
+			return x, true, true
+		}
+	case "<":
+		if x := lenOfString(a); x != nil && b.IsConst() && b.Name == "1" {
+			return x, true, true
+		}
+		if x := lenOfString(b); x != nil && a.IsConst() && a.Name == "0" {
+			return x, false, true
+		}
+	}
+	return nil, false, false
 }
 
 func (e *engine) assume(c *Term, pol bool, in ssa.Instruction, fr *frame) bool {
